@@ -591,6 +591,7 @@ func (x *c1runner) class(p c1prog, texts []string, canonP, canonQ string, applie
 }
 
 var c1probeRe = regexp.MustCompile(`A[01]{2}`)
+var c1emptyOrTopRe = regexp.MustCompile(`\{\}(<[RCE]+>)?|T\(_\)`)
 var c1listElemRe = regexp.MustCompile(`/[0-9]+(/|$)`)
 var c1flagRe = regexp.MustCompile(`<[RCE]+>`)
 
@@ -673,6 +674,10 @@ func c1classify(p c1prog, base, res c1res, diffs []c1diff, texts ...string) (str
 		case compr && (strings.HasPrefix(sa, "{}") && sb == "T(_)" || strings.HasPrefix(sb, "{}") && sa == "T(_)" ||
 			c1flagRe.ReplaceAllString(sa, "") == "T(_)+"+c1flagRe.ReplaceAllString(sb, "") ||
 			c1flagRe.ReplaceAllString(sb, "") == "T(_)+"+c1flagRe.ReplaceAllString(sa, "")):
+			found["top-unified-with-struct-holding-failing-comprehension"] = true
+		case compr && d.kind == "value" && sa != sb &&
+			c1emptyOrTopRe.ReplaceAllString(sa, "⊤") == c1emptyOrTopRe.ReplaceAllString(sb, "⊤"):
+			// the same `{}` versus `_` difference inside a disjunct or another untracked part
 			found["top-unified-with-struct-holding-failing-comprehension"] = true
 		case d.kind == "err-class" && hasRef && compr:
 			found["missing-field-reference-inside-comprehension-fatal-vs-incomplete"] = true
@@ -1049,6 +1054,12 @@ func c1hasEmbeddedRef(src string) bool {
 		}
 		return true
 	}, nil)
+	fileLevel := map[ast.Node]bool{}
+	for _, d := range f.Decls {
+		if e, ok := d.(*ast.EmbedDecl); ok {
+			fileLevel[e.Expr] = true
+		}
+	}
 	var operand func(e ast.Expr)
 	operand = func(e ast.Expr) {
 		switch x := e.(type) {
@@ -1061,6 +1072,10 @@ func c1hasEmbeddedRef(src string) bool {
 		case *ast.CallExpr:
 			found = true
 		case *ast.StructLit:
+			if fileLevel[x] {
+				// `{ … }` around the whole file is the program, not an embedded value
+				return
+			}
 			// an embedded literal with `...` (C05: a `...` inside an embedding opens the node
 			// against closed sibling conjuncts) or with embeddings of its own
 			for _, d := range x.Elts {
